@@ -62,7 +62,7 @@ Definition complies (f : lockfact) : bool :=
     end
   | AOps => match lf_locks f with [] => true | _ => false end          (* the implementation is never called with a library mutex held *)
   | ASend | ARecv | AClose => match lf_locks f with [] => true | _ => false end   (* no channel operation under a mutex *)
-  | AGo => true
+  | AGo | ACall => true
   end.
 
 Definition violations : list lockfact := filter (fun f => negb (complies f)) lock_facts.
@@ -84,3 +84,37 @@ Definition covered (sf : string * string) : bool :=
                        | ByLock owner same => holds owner same (lf_base f) (lf_locks f) | Exempt _ => false end) lock_facts.
 
 Definition count_kind (p : akind -> bool) : nat := length (filter (fun f => p (lf_kind f)) lock_facts).
+
+
+(* ---- walks may share their source fid (the property's exception to "different fids") ----
+   In the walk handlers of the framework and of Ufs the SOURCE fid is only read: no field of it
+   is written, and no method is called on it that writes its receiver's fields outside a mutex
+   of that receiver.  [walk_sources]: (function, struct, base expression of the source fid). *)
+Definition walk_sources : list (string * string * string) :=
+  [("Ufs.Walk", "ufsFid", "fid"); ("Srv.walk", "SrvFid", "fid"); ("Srv.walk", "SrvFid", "req.Fid");
+   ("Srv.walkPost", "SrvFid", "req.Fid"); ("Ufs.Walk", "SrvFid", "req.Fid")].
+
+(* a method writes its receiver without holding a mutex of the receiver *)
+Definition writes_self_unlocked (strct meth : string) : bool :=
+  existsb (fun f => String.eqb (lf_fn f) (strct ++ "." ++ meth) && is_write (lf_kind f)
+                    && String.eqb (lf_struct f) strct && String.eqb (lf_base f) "self"
+                    && negb (existsb (fun l => String.eqb (fst l) strct && String.eqb (snd l) "self") (lf_locks f)))
+          lock_facts.
+
+Definition is_source (f : lockfact) : bool :=
+  existsb (fun s => String.eqb (lf_fn f) (fst (fst s)) && String.eqb (lf_struct f) (snd (fst s)) && String.eqb (lf_base f) (snd s)) walk_sources.
+
+Definition source_ok (f : lockfact) : bool :=
+  if is_source f then
+    match lf_kind f with
+    | AW => false
+    | ACall => negb (writes_self_unlocked (lf_struct f) (lf_field f))
+    | _ => true
+    end
+  else true.
+
+Definition walk_source_violations : list lockfact := filter (fun f => negb (source_ok f)) lock_facts.
+
+(* non-vacuity: the walk handlers do read their source *)
+Definition walk_sources_seen : bool :=
+  forallb (fun fn => existsb (fun f => String.eqb (lf_fn f) fn && is_source f) lock_facts) ["Ufs.Walk"; "Srv.walk"].
